@@ -5,7 +5,8 @@
    (Check/C01.v; labelled tested-only in the evidence).
    Only statements, closed by `exact`, each followed by Print Assumptions. *)
 From Verif Require Import Base.GoSem Css.FindRoot Css.FindRootProofs
-  Layout.PageLoop Layout.PageLoopProofs Layout.PageLoopExample.
+  Layout.PageLoop Layout.PageLoopProofs Layout.PageLoopExample
+  Css.C01RefChain Css.C01RefChainProofs.
 From Coq Require Import List ZArith Arith.
 Import ListNotations.
 Local Open Scope nat_scope.
@@ -215,6 +216,57 @@ Print Assumptions C01_root_pipeline_orig_panics.
 (* 3. degenerate page geometry: see Properties/C12.v (page geometry / page
       typing are modelled there); PROGRESS above does not need a positive page
       height, so C01_page_loop_terminates covers zero / negative content boxes. *)
+
+(* ------------------------------------------------------------------ *)
+(* 3b. name-following loops whose termination rests on a "seen" discipline
+       (Css/C01RefChain.v): the chain of `system: extends` of a counter style
+       (css/counters/counters.go 27-62 extendsChain) and the href inheritance of
+       svg gradients / patterns (svg/tree.go 148-175 inheritDefs / inheritElement).
+       Both return whatever the shape of the reference graph: self loops, cycles,
+       rho shapes (a tail leading into a cycle), diamonds, dangling names. *)
+
+(* names are numbers below N; fuel N + 1 is enough, and the chain holds no name twice *)
+Theorem C01_extends_chain_terminates :
+  forall (ext : nat -> option nat) (defined : nat -> bool) (N : nat),
+    (forall n, defined n = true -> n < N) ->
+    forall start, start < N ->
+    exists out, extends_chain_of ext defined (N + 1) start = Ok out /\ NoDup out.
+Proof.
+  intros ext defined N Hlt start Hs.
+  destruct (extends_chain_terminates ext defined N Hlt start Hs) as [out H].
+  exists out. split; [exact H|]. eapply extends_chain_result_nodup. exact H.
+Qed.
+Print Assumptions C01_extends_chain_terminates.
+
+(* the test "already in the chain" cannot be weakened to "is the starting style":
+   a extends b, b extends c, c extends b (a cycle that does not hold the starting
+   style) is then followed for ever, while a cycle through the start is still cut *)
+Example C01_extends_chain_start_only_no_termination :
+  extends_chain_of rho_ext rho_defined 4 0 = Ok [0; 1] /\
+  extends_chain_start_only rho_ext rho_defined 2000 0 [0] 0 = OutOfFuel.
+Proof. split; [exact rho_extends_chain | exact rho_start_only_no_termination]. Qed.
+
+(* inheritElement: one href is deleted before every recursive call *)
+Theorem C01_inherit_element_terminates : forall (t : hrefs) (node : nat),
+  exists t' merged, inherit_element (count_href t + 1) t node = Ok (t', merged).
+Proof. exact inherit_element_terminates. Qed.
+Print Assumptions C01_inherit_element_terminates.
+
+Theorem C01_inherit_defs_terminates : forall (order : list nat) (t : hrefs),
+  exists t', inherit_defs (count_href t + 1) t order = Ok t'.
+Proof. intros order t. apply inherit_defs_terminates. lia. Qed.
+Print Assumptions C01_inherit_defs_terminates.
+
+(* deleting the href AFTER the recursion loses termination on a 2-cycle and on a
+   self reference (non-cyclic chains behave alike) *)
+Example C01_inherit_element_delete_after_no_termination :
+  inherit_element 3 [Some 1; Some 0] 0 = Ok ([None; None], [1; 0]) /\
+  inherit_element_delete_after 2000 [Some 1; Some 0] 0 = OutOfFuel /\
+  inherit_element_delete_after 2000 [Some 0] 0 = OutOfFuel.
+Proof.
+  split; [exact href_two_cycle|].
+  split; [exact href_two_cycle_delete_after_no_termination | exact href_self_loop_delete_after_no_termination].
+Qed.
 
 (* ------------------------------------------------------------------ *)
 (* 4. RE-EXPORTS (filled in by the coordinator once the owning properties are
